@@ -337,9 +337,28 @@ def stop (cell : Nat → Nat → Cell) : Nat → List Nat → Option (Nat × Nat
 
 def hashOf (shift : Nat) (k : Int) : Nat := (k.toNat * 2 ^ shift) % 2 ^ 64
 
+/-- Injective code of a key (used only for the keys outside the domain of the harness hash, see `pathOf`). -/
+def encKey (k : Int) : Nat := if k < 0 then 2 * (-k).toNat + 1 else 2 * k.toNat
+
+/-- The slot indices of key `k`.
+
+    On the domain `D k := 0 ≤ k ∧ k.toNat * 2 ^ shift < 2 ^ 64` the model coincides with the code: the hash functor of
+    the harness is `key << shift` (`hashOf`; no wrap-around on `D`), cut into a head slice of `hb` bits and
+    `(64 - hb) / ab` slices of `ab` bits from the least significant end.  On `D` that hash is perfect (different keys
+    have different hash values), which is the documented precondition of FeldmanHashSet.
+
+    Off `D` (negative keys; keys whose shifted value does not fit into 64 bits) the hash functor `key << shift` is NOT
+    perfect — the precondition of the real container is violated by that functor there, and nothing is claimed about the
+    real code for such keys.  The model's path off `D` is an arbitrary injective extension of the right length
+    (`2 ^ 64 + encKey k` as head component, which no key of `D` has since a head slice is `< 2 ^ hb ≤ 2 ^ 64`, then
+    zeros); no replayed trace uses it: the harness only ever uses keys of `D` (keys 0 … 5, `shift ≤ 56`).  It is there
+    so that `PathHyp` — which quantifies over all of `Int` — holds for the configurations that are replayed
+    (`Algo/Feldman/HarnessCfg.lean`: `cfgH_hyp`). -/
 def pathOf (hb ab shift : Nat) (k : Int) : List Nat :=
-  let h := hashOf shift k
-  (h % 2 ^ hb) :: (List.range ((64 - hb) / ab)).map (fun j => (h / 2 ^ (hb + j * ab)) % 2 ^ ab)
+  if 0 ≤ k ∧ k.toNat * 2 ^ shift < 2 ^ 64 then
+    let h := hashOf shift k
+    (h % 2 ^ hb) :: (List.range ((64 - hb) / ab)).map (fun j => (h / 2 ^ (hb + j * ab)) % 2 ^ ab)
+  else (2 ^ 64 + encKey k) :: List.replicate ((64 - hb) / ab) 0
 
 def cfgH (hb ab shift : Nat) (copyFirst : Bool := true) : Cfg :=
   { path := pathOf hb ab shift, depth := (64 - hb) / ab + 1, width := 2 ^ ab, copyFirst := copyFirst }
